@@ -4,6 +4,7 @@ pub mod mintmath;
 pub mod farmmath;
 pub mod hist;
 pub mod hist_gen;
+pub mod inst;
 
 use crate::Out;
 
@@ -13,6 +14,7 @@ pub fn run(stream: &str, seed: u64, cases: u64, replay: Option<&str>, o: &mut Ou
         "swapmath" => swapmath::run(seed, cases, replay, o),
         "mintmath" => mintmath::run(seed, cases, replay, o),
         "farmmath" => farmmath::run(seed, cases, replay, o),
+        "inst" => inst::run(seed, cases, replay, o),
         "twin" => { if let Some(p) = replay { hist_gen::run("pm_hist", seed, cases, Some(p), o) } else { hist_gen::run_twin(seed, cases, o) } }
         "auth" => { if let Some(p) = replay { hist_gen::run("pm_hist", seed, cases, Some(p), o) } else { hist_gen::run_auth(o) } }
         "pm_hist" | "fm_hist" | "faults" => hist_gen::run(stream, seed, cases, replay, o),
